@@ -1,6 +1,7 @@
 """C02 - serialization emits valid JSON denoting the tree; parse(serialize(T)) = T."""
 import os
 import vlib
+from checks import world
 
 FINISH = dict(level="model_checking",
               rule="TLC: the emitter transcription (Serializer.tla) against the RFC 8259 grammar fold for 152 trees "
@@ -32,6 +33,9 @@ def run(ck):
     deaths = vlib.run_executions(exe, lambda st: ["c02", "drive", st, n, per], n, tp, timeout=1200)
     vlib.conformance(ck, "V:trees-x-64-flag-sets", "TraceSerializer", "trace.cfg", tp, deaths, diag_of, min_events=n, timeout=2400,
                      split_every=60)
+    # trees with a past (parsed, copied, mutated through containers / pointers / patches, leaves re-set): every serialization
+    # the world client observes is judged against the composed model World.tla (model-checked under C05)
+    world.run_world(ck, exe, 2000 if thorough else 200, first_exec=200000, mc=False)
 
 
 def replay(path):
@@ -41,7 +45,7 @@ def replay(path):
     tp = path + ".ndjson"
     with open(tp, "w") as f:
         f.write("\n".join(x for x in d["trace"] if x.startswith("{")) + "\n")
-    r = vlib.validate_traces("TraceSerializer", "trace.cfg", [tp])[0]
+    r = vlib.validate_traces("TraceWorld" if d["diagnosis"].get("world") else "TraceSerializer", "trace.cfg", [tp])[0]
     os.unlink(tp)
     print("trace %s" % ("accepted" if r["accepted"] else "rejected at line(s) %s" % r["lines"]))
     return 0 if r["accepted"] else 1
